@@ -1,0 +1,19 @@
+//go:build verif
+
+package redis
+
+import (
+	"github.com/go-redis/redis/v8"
+
+	"github.com/projecteru2/core/types"
+	"github.com/projecteru2/core/utils"
+)
+
+// NewWithClient builds a Rediaron over an already constructed client (simulation seam).
+func NewWithClient(config types.Config, cli *redis.Client) (*Rediaron, error) {
+	pool, err := utils.NewPool(config.MaxConcurrency)
+	if err != nil {
+		return nil, err
+	}
+	return &Rediaron{cli: cli, config: config, pool: pool, db: config.Redis.DB}, nil
+}
